@@ -348,6 +348,7 @@ def audit(ctx, prog, fns, justified=()):
         for b in fn.live_blocks():
             t = fn.blocks[b]["term"]
             s = None
+            rg.at(b)  # ranges of variables as they are at this site (reaching definitions)
             if t["k"] == "assert":
                 s = _assert_site(prog, fn, rg, b, t, eb)
             elif t["k"] == "call":
